@@ -741,11 +741,20 @@ func (o c10Out) coq() string {
 
 // evaluate with the given arguments; of a list result the host pulls at most j elements and stops
 func c10Eval(f funcGen.Func[value.Value], args []int64, j int, modelled bool) c10Out {
+	v, err := c10Call(f, args)
+	return c10Consume(v, err, j, modelled)
+}
+
+func c10Call(f funcGen.Func[value.Value], args []int64) (value.Value, error) {
 	vs := make([]value.Value, len(args))
 	for i, a := range args {
 		vs[i] = value.Int(a)
 	}
-	v, err := f.Eval(vs...)
+	return f.Eval(vs...)
+}
+
+// what the host does with the result (possibly long after the evaluation returned it)
+func c10Consume(v value.Value, err error, j int, modelled bool) c10Out {
 	if err != nil {
 		return c10Out{Kind: "err"}
 	}
@@ -857,6 +866,9 @@ type c10Event struct {
 	K    int      `json:"k"` // function number within the session (all functions, modelled or not)
 	Args []int64  `json:"args,omitempty"`
 	J    int      `json:"j,omitempty"`
+	// Defer: the host keeps a returned list and consumes it only after the NEXT evaluation on this generator has
+	// finished (a lazy result carries closures and constants of the evaluation that produced it)
+	Defer bool `json:"defer,omitempty"`
 }
 
 type c10Case struct {
@@ -898,7 +910,7 @@ func c10RandomSession(r *Rng, id int, pool []*c10Prog, maxLen int) *c10Case {
 				k = favK
 			}
 			args := []int64{c10ArgPool[r.Pick(len(c10ArgPool))], c10ArgPool[r.Pick(len(c10ArgPool))]}
-			c.Events = append(c.Events, c10Event{Kind: "eval", K: k, Args: args, J: c10JPool[r.Pick(len(c10JPool))]})
+			c.Events = append(c.Events, c10Event{Kind: "eval", K: k, Args: args, J: c10JPool[r.Pick(len(c10JPool))], Defer: r.Chance(0.3)})
 		}
 	}
 	return c
@@ -912,12 +924,12 @@ func c10CorpusSessions(pool []*c10Prog, start int) []*c10Case {
 		c.Events = append(c.Events, c10Event{Kind: "gen", Prog: p, K: 0})
 		seq := [][]int64{{1, 2}, {5, 0}, {1, 2}, {-1, 1}, {0, 3}, {1, 2}, {3, 3}, {5, 0}, {1, 2}}
 		for n, a := range seq {
-			c.Events = append(c.Events, c10Event{Kind: "eval", K: 0, Args: a, J: []int{100, 1, 0, 2}[n%4]})
+			c.Events = append(c.Events, c10Event{Kind: "eval", K: 0, Args: a, J: []int{100, 1, 0, 2}[n%4], Defer: n%3 == 1})
 		}
 		// a second function of the same program on the same generator, interleaved with the first
 		c.Events = append(c.Events, c10Event{Kind: "gen", Prog: p, K: 1})
 		for _, a := range [][]int64{{2, 1}, {1, 2}} {
-			c.Events = append(c.Events, c10Event{Kind: "eval", K: 1, Args: a, J: 100})
+			c.Events = append(c.Events, c10Event{Kind: "eval", K: 1, Args: a, J: 100, Defer: true})
 			c.Events = append(c.Events, c10Event{Kind: "eval", K: 0, Args: a, J: 100})
 		}
 		cs = append(cs, c)
@@ -943,6 +955,7 @@ func c10RunSession(c *c10Case, sum *Summary) *c10Result {
 		j    int
 	}
 	lastSeen := map[seenKey]int{}
+	var pending []func()
 	for n, ev := range c.Events {
 		switch ev.Kind {
 		case "gen":
@@ -970,11 +983,43 @@ func c10RunSession(c *c10Case, sum *Summary) *c10Result {
 		case "eval":
 			fn := s.funcs[ev.K]
 			before := fn.allReps()
-			out := c10Eval(fn.f, ev.Args, ev.J, fn.prog.Coq != "")
+			v, err := c10Call(fn.f, ev.Args)
 			after := fn.allReps()
-			res.outs = append(res.outs, out)
+			res.outs = append(res.outs, c10Out{})
+			res.coqEvents = append(res.coqEvents, "")
+			res.coqObs = append(res.coqObs, "")
+			reps, _ := fn.constReps()
+			nn, evv := n, ev
+			finish := func() {
+				out := c10Consume(v, err, evv.J, fn.prog.Coq != "")
+				res.outs[nn] = out
+				sum.Count("outcome_kind", out.Kind)
+				want := c10Oracle(fn.prog, evv.Args, evv.J)
+				if (want.Kind != out.Kind || want.String() != out.String()) && res.viol == nil {
+					res.viol = &GoViolation{CaseID: c.ID, What: fmt.Sprintf("evaluation %d of the session (function %d, %s) differs from the evaluation of the same program with the same arguments on a fresh generator", nn, evv.K, fn.prog.Name),
+						Sig: "history-dependent/" + fn.prog.Class, Expected: want.String(), Observed: out.String(),
+						Human: map[string]any{"program": fn.prog.Src, "args": evv.Args, "consumed": evv.J, "event": nn, "consumption_deferred": evv.Defer}}
+				}
+				if fn.prog.Coq == "" {
+					res.coqEvents[nn], res.coqObs[nn] = "EScratch []", "XNone"
+				} else {
+					res.coqEvents[nn] = fmt.Sprintf("EEval %d %s %d", modelIdx[evv.K], c10ZList(evv.Args), evv.J)
+					res.coqObs[nn] = "XEval " + out.coq() + " " + c10RepsCoq(reps)
+				}
+			}
+			// results kept by the host during this evaluation are consumed now
+			for _, f := range pending {
+				f()
+			}
+			pending = nil
+			if _, isList := v.(*value.List); isList && ev.Defer && err == nil {
+				pending = append(pending, finish)
+				sum.Count("consumption_time", "deferred: after the next evaluation")
+			} else {
+				finish()
+				sum.Count("consumption_time", "immediately")
+			}
 			res.evals++
-			sum.Count("outcome_kind", out.Kind)
 			sum.Count("consumption", fmt.Sprint(ev.J))
 			changed := "unchanged"
 			for i := range before {
@@ -987,13 +1032,6 @@ func c10RunSession(c *c10Case, sum *Summary) *c10Result {
 				}
 			}
 			sum.Count("const_representation_change", changed)
-			// Go-side oracle
-			want := c10Oracle(fn.prog, ev.Args, ev.J)
-			if (want.Kind != out.Kind || want.String() != out.String()) && res.viol == nil {
-				res.viol = &GoViolation{CaseID: c.ID, What: fmt.Sprintf("evaluation %d of the session (function %d, %s) differs from the evaluation of the same program with the same arguments on a fresh generator", n, ev.K, fn.prog.Name),
-					Sig: "history-dependent/" + fn.prog.Class, Expected: want.String(), Observed: out.String(),
-					Human: map[string]any{"program": fn.prog.Src, "args": ev.Args, "consumed": ev.J, "event": n}}
-			}
 			key := seenKey{ev.K, fmt.Sprint(ev.Args), ev.J}
 			if prev, ok := lastSeen[key]; ok && n-prev > 1 {
 				// evaluated before, with at least one other event in between
@@ -1008,15 +1046,10 @@ func c10RunSession(c *c10Case, sum *Summary) *c10Result {
 				}
 			}
 			lastSeen[key] = n
-			if fn.prog.Coq == "" {
-				res.coqEvents = append(res.coqEvents, "EScratch []")
-				res.coqObs = append(res.coqObs, "XNone")
-				break
-			}
-			reps, _ := fn.constReps()
-			res.coqEvents = append(res.coqEvents, fmt.Sprintf("EEval %d %s %d", modelIdx[ev.K], c10ZList(ev.Args), ev.J))
-			res.coqObs = append(res.coqObs, "XEval "+out.coq()+" "+c10RepsCoq(reps))
 		}
+	}
+	for _, f := range pending {
+		f()
 	}
 	return res
 }
@@ -1049,7 +1082,11 @@ func c10Describe(c *c10Case, res *c10Result) map[string]any {
 			if res != nil && n < len(res.outs) {
 				o = " -> " + res.outs[n].String()
 			}
-			lines = append(lines, fmt.Sprintf("%d: f%d.Eval(%v), host consumes %d%s", n, ev.K, ev.Args, ev.J, o))
+			when := ""
+			if ev.Defer {
+				when = " (a list result is consumed only after the next evaluation)"
+			}
+			lines = append(lines, fmt.Sprintf("%d: f%d.Eval(%v), host consumes %d%s%s", n, ev.K, ev.Args, ev.J, when, o))
 		}
 	}
 	sig := "history-dependent/session"
